@@ -156,6 +156,24 @@ def family_options(m, tier, add_bench, open_mod, close_mod):
     add_bench(m, pm, 12, "deeper", form="bencher", options=[("sample_size", "1")])
     close_mod(m, 8)
     close_mod(m, 4)
+    # a benchmark function next to a same-named group module (different namespaces): the group's options
+    # must still reach the benchmarks below it, whichever is declared / registered first
+    for order in ("fn_first", "mod_first"):
+        pt = open_mod(m, path, 4, "twins_" + order)
+        if order == "fn_first":
+            add_bench(m, pt, 8, "parse", form="bencher")
+            add_bench(m, pt, 8, "skipped", form="bencher", options=[("sample_count", "1"), ("sample_size", "1")])
+        gp = open_mod(m, pt, 8, "parse", group={"options": [("sample_count", "3"), ("sample_size", "5"), ("items_count", "4u32")]})
+        add_bench(m, gp, 12, "generic_only", form="bencher", types=["TA", "TB"])
+        close_mod(m, 8)
+        gq = open_mod(m, pt, 8, "skipped", group={"options": [("ignore", None), ("sample_count", "2"), ("sample_size", "2")]})
+        add_bench(m, gq, 12, "generic_only", form="bencher", consts=[1, 2])
+        add_bench(m, gq, 12, "plain_inside", form="bencher")
+        close_mod(m, 8)
+        if order == "mod_first":
+            add_bench(m, pt, 8, "parse", form="bencher")
+            add_bench(m, pt, 8, "skipped", form="bencher", options=[("sample_count", "1"), ("sample_size", "1")])
+        close_mod(m, 4)
     g = open_mod(m, path, 4, "zero", group={"options": [("sample_size", "2")]})
     add_bench(m, g, 8, "count_zero", form="bencher", options=[("sample_count", "0")])
     add_bench(m, g, 8, "size_zero", form="bencher", options=[("sample_size", "0")])
